@@ -45,6 +45,11 @@ func NewWith(convert StructOptions, value interface{}) Value {
 	for v.Kind() == reflect.Interface || v.Kind() == reflect.Ptr {
 		v = v.Elem()
 		drilled = true
+		// (one level at a time: what a pointer points to may be a pointer that is
+		// a Marshaler, which its own element is not.)
+		if v.IsValid() && v.CanInterface() {
+			break
+		}
 	}
 	if !v.IsValid() {
 		return Null{}
